@@ -18,7 +18,8 @@
 From Coq Require Import List ZArith Bool.
 From TskVerif Require Import Base.Common C03.Model C03.Spec C03.AlleleProofs C03.PaintProofs
      C03.DecodeProofs C03.HistoryProofs C03.RuleProofs C03.TotalProofs C03.DfsTotalProofs C03.PyViews C03.ViewsProofs
-     C03.MutParents C03.ParentProofs C03.InitProofs C03.SeekProofs C03.SampleListProofs.
+     C03.MutParents C03.ParentProofs C03.InitProofs C03.SeekProofs C03.SampleListProofs
+     C03.HapMatrixProofs C03.NodeInvariantProofs.
 Import ListNotations.
 Open Scope Z_scope.
 
@@ -337,3 +338,42 @@ Theorem copy_spec : forall v g al hm s,
   PyViews.c_has_missing c = hm /\
   PyViews.decode_copy c s = Err PyViews.ERR_VARIANT_CANT_DECODE_COPY.
 Proof. exact copy_spec_l. Qed.
+
+(* ---- proof-only round ------------------------------------------------------------------------ *)
+
+(* haplotypes() is the transpose of the per-site decode columns: for ANY requested node list,
+   entry j of the string of requested node k is entry k of the column of the j-th site. *)
+Theorem haplotypes_entry : forall mdc n rs rows,
+  PyViews.haplotypes_model mdc n rs = Ok rows ->
+  length rows = Z.to_nat n /\
+  forall k j r, 0 <= k < n -> get rs j = Ok r ->
+    exists row col c, get rows k = Ok row /\ PyViews.hap_column mdc r = Ok col /\
+                      get row j = Ok c /\ get col k = Ok c /\ length row = length rs.
+Proof. exact haplotypes_entry_l. Qed.
+
+(* hence (with has_missing_data exact for every site) the haplotype of requested node k reads, at
+   site j, the missing-data character iff genotype_matrix[j][k] is MISSING and otherwise the
+   single character of the allele that genotype indexes *)
+Theorem haplotypes_follow_genotypes : forall mdc n rs rows,
+  PyViews.haplotypes_model mdc n rs = Ok rows ->
+  forall k j g al hm gk, 0 <= k < n -> get rs j = Ok (g, al, hm) ->
+    (hm = true <-> exists i, get g i = Ok MISSING) ->
+    get g k = Ok gk ->
+    exists row, get rows k = Ok row /\
+      (gk = MISSING -> get row j = Ok mdc) /\
+      (forall a, gk <> MISSING -> get al gk = Ok a -> exists c, a = [c] /\ c <> mdc /\ get row j = Ok c).
+Proof. exact haplotypes_follow_genotypes_l. Qed.
+
+(* The genotype of a requested node is independent of which other nodes are requested and in
+   which order (and of update path / array representation): two variants over the same forest,
+   site and options that both request node u decode the same genotype for u and the same
+   alleles.  (No order hypothesis on the mutations is needed.) *)
+Theorem decode_node_invariant : forall par N h, (forall u, depth_le par h u) ->
+  forall s fuel1 t1 v1 fuel2 t2 v2 g1 al1 hm1 g2 al2 hm2,
+  v_impute v1 = v_impute v2 -> v_user_alleles v1 = v_user_alleles v2 ->
+  tree_rep par fuel1 t1 v1 N -> tree_rep par fuel2 t2 v2 N -> muts_in_range N s ->
+  decode fuel1 t1 v1 s = Ok (g1, al1, hm1) -> decode fuel2 t2 v2 s = Ok (g2, al2, hm2) ->
+  al1 = al2 /\
+  forall k1 k2 u, get (v_samples v1) k1 = Ok u -> get (v_samples v2) k2 = Ok u ->
+    get g1 k1 = get g2 k2.
+Proof. exact decode_node_invariant_l. Qed.
